@@ -32,7 +32,8 @@ HOT = {
     'ops::complete_status::StatusOp': 'Arc<CompleteStatus> is handed to the caller by contract',
     'ops::group_by::KeyObservable': 'a group is a view on the group subject',
 }
-SHARED_TYPES = ('std::rc::Rc', 'std::sync::Arc', 'rc::MutRc', 'rc::MutArc', 'std::cell::RefCell', 'std::sync::Mutex', 'std::cell::Cell', 'std::sync::RwLock')
+SHARED_TYPES = ('std::rc::Rc', 'std::sync::Arc', 'rc::MutRc', 'rc::MutArc', 'std::cell::RefCell', 'std::sync::Mutex', 'std::cell::Cell', 'std::sync::RwLock',
+                'std::rc::Weak', 'std::sync::Weak', 'std::sync::OnceLock', 'std::cell::OnceCell', 'once_cell::sync::OnceCell', 'once_cell::unsync::OnceCell')
 DEFERRED = {'observable::defer::ObservableDeref': 'defer', 'observable::of::CallableObservable': 'of_fn/start', 'observable::from_fn::ObservableFn': 'create'}
 # functions that may create a shared cell although they are not actual_subscribe
 CELL_CREATORS = {
@@ -162,7 +163,7 @@ def z3(cx):
         bad = None
         for v in adt['variants']:
             for f in v['fields']:
-                if F.mentions(f['t'], lambda x: x['k'] == 'adt' and x['p'] in SHARED_TYPES):
+                if F.mentions(f['t'], lambda x: x['k'] == 'adt' and (x['p'] in SHARED_TYPES or x['p'].rsplit('::', 1)[-1] in ('Shared', 'WeakShared'))):
                     bad = (f['n'], F.tystr(f['t']))
         if bad:
             res.append(Finding(ID, 'Z3', tag, False, 'operator value carries shared state in field `%s: %s`: clones of the pipeline subscribed twice would share it' % bad, adt['span']))
